@@ -75,6 +75,16 @@ def run(ctx):
         ctx.ob('R06.5', 'after the semaphore is closed the idle queue is observed empty before close() returns', ok5, ctx.where(c, cl[0].term.line),
                detail if not ok5 else '', construct='close:leftover-idle-objects', sites=[ctx.where(c, p.term.line) for p in pops + drains])
 
+    # ---- R06.7 a closed pool has max_size 0 whatever a concurrent resize did --------------------
+    if len(cl) == 1:
+        zero = [bb for bb, i, s in r.field_writes(c, r.SLOTS, r.MAX) if classify_write(can, s) == ('=', '0_usize')]
+        rets = can.exits()['return']
+        esc = can.reach_after(cl[0].idx, ('normal',), avoid=zero)
+        okz = bool(zero) and not any(e in esc for e in rets) and all(guard_root(can, s.place) is not None for bb, i, s in r.field_writes(c, r.SLOTS, r.MAX))
+        ctx.ob('R06.7', 'after closing the semaphore close() sets max_size to 0 under the lock', okz, ctx.where(c, cl[0].term.line),
+               'a resize() that ran between resize(0) and Semaphore::close() leaves the closed pool with its limit: status() does not report max_size 0 and returned objects are kept'
+               if not okz else '', construct='close:max-size-not-zeroed')
+
     # ---- R06.2 resize is a no-op on a closed pool ----------------------------------
     z = r.RESIZE
     ctx.saw(z)
@@ -85,7 +95,14 @@ def run(ctx):
         t0 = isc[0]
         effects = [bb for bb, i, s in r.field_writes(z, r.SLOTS, r.SIZE) + r.field_writes(z, r.SLOTS, r.MAX)] + \
                   [blk.idx for blk in z.blocks if blk.term.kind == 'call' and not blk.cleanup and
-                   (r.is_sem_call(z, blk.term, 'add_permits') or r.is_sem_call(z, blk.term, 'try_acquire') or blk.term.callee_names() & {'std::sync::Mutex::lock'})]
+                   (r.is_sem_call(z, blk.term, 'add_permits') or r.is_sem_call(z, blk.term, 'try_acquire'))]
+        # check-then-act must be atomic with respect to close(): the test runs while the slots guard is held
+        gl = [i for i, l in enumerate(z.locals) if l['ty'].startswith('std::sync::MutexGuard<')]
+        st0 = zan.state_at_term(t0.idx)
+        under = st0 is not None and any((st0[0] >> g) & 1 for g in gl)
+        ctx.ob('R06.2', 'resize() tests is_closed() while holding the slots lock', under, ctx.where(z, t0.term.line),
+               'the closed test is made before the lock is taken: a close() that completes between the test and the update leaves a closed pool with a non-zero max_size, which then keeps returned objects'
+               if not under else '', construct='resize:closed-test-outside-lock')
         late = [e for e in effects if not zan.dominates(t0.idx, e)]
         ctx.ob('R06.2', 'the closed test precedes every effect of resize()', not late, ctx.where(z, t0.term.line),
                'effects at line(s) %s are not dominated by the is_closed() test' % [z.blocks[e].term.line for e in late] if late else '', construct='resize:closed-test-first')
